@@ -163,25 +163,47 @@ Better(tab, cfg, stage, A, B) == BetterM(Measure(tab, cfg, stage, A), Measure(ta
 ExactCmp(tab, cfg, stage, A, B) == RatCmp(Measure(tab, cfg, stage, A), Measure(tab, cfg, stage, B))
 
 (* C16: the association value recorded in history() (m = the float scaled by 1e6 and rounded) against the *)
-(* exact value: V^2 = chi2/n = W / (c0*c1), T^4 = V^4 / (k-1); tolerance 3e-6 on V^2 / T^4               *)
+(* exact value: V^2 = chi2/n = W / (c0*c1), T^4 = V^4 / (k-1); tolerance: half a unit of the rounding    *)
 Ten9  == BNN(1000000000)
 Ten12 == BNMul(BNN(1000000), BNN(1000000))
 AbsDiffBN(a, b) == IF BNCmp(a, b) >= 0 THEN BNSub(a, b) ELSE BNSub(b, a)
+(* Kruskal-Wallis with scipy's tie correction: with K = sum (2R_j)^2 / n_j = kn/kd and T = sum (t^3 - t)  *)
+(* over the tied y values,  H = 3 (kn - kd n (n+1)^2) (n-1) / (kd (n^3 - n - T))                          *)
+TieTerm(pool) ==
+  LET vals == {pool[i] : i \in DOMAIN pool}
+      RECURSIVE sm(_)
+      sm(S) == IF S = {} THEN 0
+               ELSE LET v == CHOOSE x \in S : TRUE
+                        t == Cardinality({i \in DOMAIN pool : pool[i] = v})
+                    IN  t * t * t - t + sm(S \ {v})
+  IN  sm(vals)
+KruskalValueOK(tab, stage, G, m) ==
+  LET pool == Pool(tab, stage)
+      n    == Len(pool)
+      dd   == n * n * n - n - TieTerm(pool)
+  IN  IF dd = 0 \/ EmptyGroup(tab, G) THEN TRUE
+      ELSE LET k   == WKruskal(tab, stage, G)
+               Den == BNMul(k[2], BNN(dd))
+               Num == BNMul(BNSub(k[1], BNMul(k[2], BNN(n * (n + 1) * (n + 1)))), BNN(3 * (n - 1)))
+           IN  BNCmp(AbsDiffBN(BNMul(BNN(m), Den), BNMul(BNN(1000000), Num)), BNMul(BNN(2), Den)) <= 0
 MeasureValueOK(tab, cfg, stage, G, m) ==
   LET n  == Total(tab, "tr", stage)
       c1 == SumY(tab, "tr", StageIds(tab, stage))
       c0 == n - c1
-  IN  IF cfg.measure = "kruskal" \/ c0 * c1 = 0 \/ EmptyGroup(tab, G) THEN TRUE
+  IN  IF cfg.measure = "kruskal" THEN KruskalValueOK(tab, stage, G, m)
+      ELSE IF c0 * c1 = 0 \/ EmptyGroup(tab, G) THEN TRUE
       ELSE LET w  == WBin(tab, stage, G)
                D  == BNMul(w[2], BNN(c0 * c1))
                m2 == BNMul(BNN(m), BNN(m))
            IN  IF cfg.measure = "cramerv"
-               THEN BNCmp(AbsDiffBN(BNMul(m2, D), BNMul(Ten12, w[1])), BNMul(BNN(3000000), D)) <= 0
+               \* m = round(1e6 V): |m^2 - 1e12 V^2| <= (m + 2)
+               THEN BNCmp(AbsDiffBN(BNMul(m2, D), BNMul(Ten12, w[1])), BNMul(BNN(m + 2), D)) <= 0
                ELSE LET k1 == Len(G) - 1
                         D2 == BNMul(D, D)
                     IN  BNCmp(AbsDiffBN(BNMul(BNMul(BNMul(m2, m2), D2), BNN(k1)),
                                         BNMul(BNMul(Ten12, Ten12), BNMul(w[1], w[1]))),
-                              BNMul(BNMul(BNMul(BNN(3), BNMul(Ten9, Ten9)), D2), BNN(k1))) <= 0
+                              \* m = round(1e6 T): |m^4 - 1e24 T^4| <= 2 (m + 1)^3
+                              BNMul(BNMul(BNMul(BNN(2), BNMul(BNN(m + 1), BNMul(BNN(m + 1), BNN(m + 1)))), D2), BNN(k1))) <= 0
 
 -----------------------------------------------------------------------------
 (* Property C01: optimal viable grouping, two-stage *)
